@@ -1,4 +1,4 @@
-import CardVerif.Spec.GinMeldRules
+import CardModel.Spec.GinMeldRules
 import Mathlib.Data.List.Perm.Basic
 import Mathlib.Data.List.Perm.Subperm
 import Mathlib.Data.List.Sublists
